@@ -215,3 +215,83 @@ def build_zoo_layer(seed: int):
     b, truth, used = build_zoo_builder(seed)
     layer = b.build()
     return layer, truth, used
+
+
+# --------------------------------------------------------------------------- matrix layers
+# Deterministic layers that walk a whole axis of the envelope (every base type x termination,
+# every encoding x byte order ...) so that no combination depends on a lucky random choice.
+def _svc2(b: LayerBuilder, k: int, name: str, rq_params: List[Any], rs_params: List[Any]) -> None:
+    rq = b.request(f"rq_{name}", [b.coded_const("sid", 0x31), b.coded_const("sub", k)] + rq_params)
+    rs = b.response(f"rs_{name}", [b.coded_const("sid", 0x71), b.coded_const("sub", k)] + rs_params)
+    b.service(name, rq, [rs], [])
+
+
+def build_matrix_builder(kind: str) -> LayerBuilder:
+    b = LayerBuilder(f"matrix_{kind}", "ecu")
+    u8 = b.dop("m_u8", b.slt(bits=8))
+    k = 0
+    if kind == "minmax":
+        for base in ("A_BYTEFIELD", "A_ASCIISTRING", "A_UTF8STRING", "A_UNICODE2STRING"):
+            for term in ("ZERO", "HEX_FF", "END_OF_PDU"):
+                for mn, mx in ((0, None), (2, 6)):
+                    d = b.dop(f"mm{k}", b.minmax(base, mn, mx, term))
+                    rs = [b.value("pre", u8), b.value("s", d)]
+                    if term != "END_OF_PDU":
+                        rs.append(b.value("post", u8))
+                    _svc2(b, k, f"mm{k}", [b.value("s", d)], rs)
+                    k += 1
+    elif kind == "leading":
+        for base in ("A_BYTEFIELD", "A_ASCIISTRING", "A_UTF8STRING", "A_UNICODE2STRING"):
+            for bits in (8, 16, 4):
+                for hilo in (None, False):
+                    d = b.dop(f"ll{k}", b.leading(base, bits, hilo=hilo))
+                    _svc2(b, k, f"ll{k}", [b.value("s", d), b.value("post", u8)], [b.value("pre", u8), b.value("s", d)])
+                    k += 1
+    elif kind == "strings":
+        combos = [("A_ASCIISTRING", e) for e in (None, "ISO_8859_1", "ISO_8859_2", "WINDOWS_1252", "UTF8")] + \
+                 [("A_UTF8STRING", e) for e in (None, "UTF8")] + [("A_UNICODE2STRING", e) for e in (None, "UCS2")]
+        for base, enc in combos:
+            for hilo in (None, True, False):
+                for nbytes in (2, 4):
+                    d = b.dop(f"st{k}", b.slt(base, 8 * nbytes, encoding=enc, hilo=hilo))
+                    _svc2(b, k, f"st{k}", [b.value("s", d)], [b.value("s", d), b.value("post", u8)])
+                    k += 1
+    elif kind == "ints":
+        for base, encs in (("A_UINT32", (None, "NONE", "BCD_P", "BCD_UP")), ("A_INT32", (None, "TWOC", "ONEC", "SM"))):
+            for enc in encs:
+                for bits, bitpos in ((8, 0), (12, 4), (16, 0), (32, 0), (3, 5)):
+                    for hilo in (None, False):
+                        d = b.dop(f"i{k}", b.slt(base, bits, encoding=enc, hilo=hilo))
+                        _svc2(b, k, f"i{k}", [b.value("v", d, bit_position=bitpos)],
+                              [b.value("pre", u8), b.value("v", d, bit_position=bitpos), b.value("post", u8)])
+                        k += 1
+        for base, bits in (("A_FLOAT32", 32), ("A_FLOAT64", 64)):
+            for hilo in (None, False):
+                d = b.dop(f"f{k}", b.slt(base, bits, hilo=hilo))
+                _svc2(b, k, f"f{k}", [b.value("v", d)], [b.value("v", d), b.value("post", u8)])
+                k += 1
+    elif kind == "bad":
+        # descriptions that violate the specification: illegal base type / encoding combinations and
+        # bit lengths.  Strict mode reports them as errors, lenient mode downgrades them (C17 only).
+        combos = [("A_ASCIISTRING", 16, "TWOC"), ("A_ASCIISTRING", 16, "BCD_P"), ("A_UTF8STRING", 16, "SM"),
+                  ("A_UNICODE2STRING", 16, "BCD_UP"), ("A_UINT32", 8, "TWOC"), ("A_UINT32", 16, "UTF8"),
+                  ("A_INT32", 8, "BCD_P"), ("A_INT32", 16, "ISO_8859_1"), ("A_FLOAT32", 16, None),
+                  ("A_FLOAT64", 32, None), ("A_BYTEFIELD", 16, "UTF8"), ("A_FLOAT32", 32, "BCD_P")]
+        for base, bits, enc in combos:
+            d = b.dop(f"bad{k}", b.slt(base, bits, encoding=enc))
+            _svc2(b, k, f"bad{k}", [b.value("v", d)], [b.value("pre", u8), b.value("v", d)])
+            k += 1
+        dm = b.dop(f"bad{k}", b.minmax("A_ASCIISTRING", 1, 4, "ZERO", encoding="SM"))
+        _svc2(b, k, f"bad{k}", [b.value("v", dm)], [b.value("v", dm), b.value("post", u8)])
+    else:
+        raise ValueError(kind)
+    b.response("gnr", [b.coded_const("sid", 0x7F), b.value("rq_sid", u8), b.coded_const("nrc", 0x78)],
+               "GLOBAL_NEGATIVE")
+    return b
+
+
+MATRIX_KINDS = ["minmax", "leading", "strings", "ints"]
+
+
+def build_matrix_layer(kind: str):
+    return build_matrix_builder(kind).build()
